@@ -2,6 +2,7 @@ package main
 
 import (
 	"fmt"
+	"os"
 	"go/constant"
 	"go/token"
 	"go/types"
@@ -803,12 +804,27 @@ func (w *World) dependsOn(v ssa.Value, pred func(ssa.Value) bool, _ *ssa.Functio
 // start nested walks (depWalk) in the same calling context.
 func (w *World) depWalk(v ssa.Value, stack0 []*ssa.Call, pred func(ssa.Value, []*ssa.Call) bool) bool {
 	seen := map[ssa.Value]bool{}
+	// the function the question is asked in: its own parameters are the inputs, not to be
+	// traced back to callers
+	var rootFn *ssa.Function
+	switch x := v.(type) {
+	case *ssa.Parameter:
+		rootFn = x.Parent()
+	case ssa.Instruction:
+		rootFn = x.Parent()
+	}
+	if len(stack0) > 0 {
+		rootFn = stack0[0].Parent()
+	}
 	var walk func(v ssa.Value, stack []*ssa.Call) bool
 	walk = func(v ssa.Value, stack []*ssa.Call) bool {
 		if v == nil || seen[v] {
 			return false
 		}
 		seen[v] = true
+		if os.Getenv("TURNCHECK_DEPDEBUG") != "" {
+			fmt.Fprintf(os.Stderr, "DEP %d %T %s\n", len(stack), v, w.key(v))
+		}
 		if pred(v, stack) {
 			return true
 		}
@@ -843,7 +859,36 @@ func (w *World) depWalk(v ssa.Value, stack0 []*ssa.Call, pred func(ssa.Value, []
 					}
 				}
 			}
+			// no inlined frame: the argument at any module call site
+			if pfn := x.Parent(); pfn != nil && w.IsMod[pfn] && pfn != rootFn {
+				if node := w.CG.Nodes[pfn]; node != nil {
+					idx := paramIndex(x)
+					for _, e := range node.In {
+						if e.Site == nil || e.Site.Common().IsInvoke() || !w.IsMod[e.Caller.Func] {
+							continue
+						}
+						if args := e.Site.Common().Args; idx >= 0 && idx < len(args) && walk(args[idx], nil) {
+							return true
+						}
+					}
+				}
+			}
 			return false
+		case *ssa.Field:
+			// one field of a struct VALUE (a helper's struct result, a by-value parameter, a
+			// local struct variable): only what was put into that field, plus the conditions
+			// under which the helper chose the return it came from
+			st, _ := x.X.Type().Underlying().(*types.Struct)
+			if st != nil {
+				if vals, ok := w.flow().structValueField(x.X, []string{st.Field(x.Field).Name()}, 0); ok {
+					for _, val := range vals {
+						if walk(w.resolveLoad(val), stack) {
+							return true
+						}
+					}
+					return w.structOriginControl(x.X, 0, func(v ssa.Value) bool { return walk(v, stack) })
+				}
+			}
 		case *ssa.Alloc, *ssa.MakeSlice:
 			for _, src := range w.writersInto(x, fn) {
 				if walk(src, stack) {
@@ -856,6 +901,27 @@ func (w *World) depWalk(v ssa.Value, stack0 []*ssa.Call, pred func(ssa.Value, []
 			return false
 		case *ssa.UnOp:
 			if x.Op == token.MUL {
+				// a field of a local struct variable (go/ssa keeps a struct local in memory when a
+				// value-receiver method is called on it): only what was put into that field
+				if _, isFA := x.X.(*ssa.FieldAddr); isFA {
+					if al, path := allocBase(x.X); al != nil && len(path) > 0 {
+						if vals, ok := w.flow().localFieldStoresP(al, path); ok {
+							for _, val := range vals {
+								if walk(w.resolveLoad(val), stack) {
+									return true
+								}
+							}
+							for _, r := range *al.Referrers() {
+								if st, isSt := r.(*ssa.Store); isSt && st.Addr == ssa.Value(al) {
+									if w.structOriginControl(st.Val, 0, func(v ssa.Value) bool { return walk(v, stack) }) {
+										return true
+									}
+								}
+							}
+							return false
+						}
+					}
+				}
 				loc := w.locKey(x.X)
 				for _, st := range w.stores[loc] {
 					if st.Parent() == fn && walk(st.Val, stack) {
@@ -899,9 +965,18 @@ func (w *World) depWalk(v ssa.Value, stack0 []*ssa.Call, pred func(ssa.Value, []
 			if call, ok := x.Tuple.(*ssa.Call); ok && !call.Call.IsInvoke() {
 				if cal := call.Call.StaticCallee(); cal != nil && w.IsMod[cal] && len(stack) < 4 {
 					ns := append(append([]*ssa.Call{}, stack...), call)
-					for _, ret := range returnsOf(cal) {
+					rets := returnsOf(cal)
+					for _, ret := range rets {
 						if x.Index < len(ret.Results) && walk(w.resolveLoad(ret.Results[x.Index]), ns) {
 							return true
+						}
+						// control dependence: which return is taken decides the result
+						if len(rets) > 1 {
+							for f := range w.facts(cal).in[ret.Block()] {
+								if (f.X != nil && walk(f.X, ns)) || (f.Y != nil && walk(f.Y, ns)) {
+									return true
+								}
+							}
 						}
 					}
 					return false
@@ -918,6 +993,52 @@ func (w *World) depWalk(v ssa.Value, stack0 []*ssa.Call, pred func(ssa.Value, []
 		return false
 	}
 	return walk(v, stack0)
+}
+
+// structOriginControl: the conditions that decide which return of a module helper a struct
+// value came from (followed through phis and by-value parameters, depth ≤ 4).
+func (w *World) structOriginControl(v ssa.Value, depth int, visit func(ssa.Value) bool) bool {
+	if depth > 4 {
+		return false
+	}
+	switch x := v.(type) {
+	case *ssa.Call, *ssa.Extract:
+		call, _ := callOf(v)
+		if call == nil || call.Call.StaticCallee() == nil || !w.IsMod[call.Call.StaticCallee()] {
+			return false
+		}
+		cal := call.Call.StaticCallee()
+		rets := returnsOf(cal)
+		if len(rets) < 2 {
+			return false
+		}
+		for _, ret := range rets {
+			for f := range w.facts(cal).in[ret.Block()] {
+				if (f.X != nil && visit(f.X)) || (f.Y != nil && visit(f.Y)) {
+					return true
+				}
+			}
+		}
+	case *ssa.Phi:
+		for _, e := range x.Edges {
+			if w.structOriginControl(e, depth+1, visit) {
+				return true
+			}
+		}
+	case *ssa.Parameter:
+		if node := w.CG.Nodes[x.Parent()]; node != nil {
+			idx := paramIndex(x)
+			for _, e := range node.In {
+				if e.Site == nil || e.Site.Common().IsInvoke() || !w.IsMod[e.Caller.Func] {
+					continue
+				}
+				if args := e.Site.Common().Args; idx >= 0 && idx < len(args) && w.structOriginControl(args[idx], depth+1, visit) {
+					return true
+				}
+			}
+		}
+	}
+	return false
 }
 
 // writersInto: values written into the storage of a slice/array allocation within fn:
